@@ -451,6 +451,24 @@ def enum_small(tier):
             yield dict(dev="phys", calls=[SMALL[i] for i in combo])
 
 
+# ---- second exhaustive space: parametrized sequences and DMM declarations (physical device)
+SMALL_PARAM = [
+    dict(kind="declare", a=0, b=0), dict(kind="declare_var", a=0, b=0), dict(kind="use_var", a=0, b=0),
+    dict(kind="detmap", a=0, b=0), dict(kind="detmap", a=1, b=0), dict(kind="slm", a=0, b=0),
+    dict(kind="add_dmm", a=0, b=0), dict(kind="add", a=0, b=1), dict(kind="measure", a=0, b=0),
+]
+
+
+def enum_small_param(tier):
+    depth = 6 if tier == "thorough" else 5
+    for n in range(1, depth + 1):
+        for combo in itertools.product(range(len(SMALL_PARAM)), repeat=n):
+            # (sequences that never declare a variable are covered by the first space)
+            if 1 not in combo:
+                continue
+            yield dict(dev="phys", calls=[SMALL_PARAM[i] for i in combo])
+
+
 CLAUSES = [
     Clause("typestate", check, gen=lambda t: call_seqs(t),
            budget={"quick": (16, 1500), "thorough": (16, 40000)},
@@ -458,4 +476,7 @@ CLAUSES = [
     Clause("typestate_small_exhaustive", check, enum=enum_small,
            budget={"quick": (16, 0), "thorough": (16, 0)}, exhaustive=True,
            doc="all sequences of <=4 (quick) / <=5 (thorough) calls from a 12-call alphabet"),
+    Clause("typestate_param_exhaustive", check, enum=enum_small_param,
+           budget={"quick": (16, 0), "thorough": (16, 0)}, exhaustive=True,
+           doc="all sequences of <=5 (quick) / <=6 (thorough) calls from a 9-call alphabet with variables and DMMs"),
 ]
